@@ -702,13 +702,121 @@ func runHistory(k *vf.Case) {
 	}
 }
 
+// runWide: thousands of distinct attribute sets on two synchronous instruments, a few hundred per cycle and
+// most of them new, so that the history as a whole passes any plausible default limit on the number of
+// sets an aggregate keeps while each cycle stays far below it. The cumulative reader keeps every set, the
+// delta reader forgets them at each collection: their totals must still agree set by set.
+func runWide(k *vf.Case) {
+	r := k.R
+	ctx := context.Background()
+	del := sdkmetric.NewManualReader(sdkmetric.WithTemporalitySelector(func(sdkmetric.InstrumentKind) metricdata.Temporality { return metricdata.DeltaTemporality }))
+	cum := sdkmetric.NewManualReader()
+	mp := sdkmetric.NewMeterProvider(sdkmetric.WithReader(del), sdkmetric.WithReader(cum))
+	m := mp.Meter("wide")
+	ctr, _ := m.Int64Counter("c")
+	hist, _ := m.Float64Histogram("h")
+	cycles := 4 + r.Intn(4)
+	perCycle := 400 + r.Intn(500)
+	next := 0
+	ctrTotal := map[int]int64{}
+	histCount := map[int]uint64{}
+	deltaCtr := map[int]int64{}
+	deltaHist := map[int]uint64{}
+	for cy := 0; cy < cycles; cy++ {
+		for i := 0; i < perCycle; i++ {
+			id := next
+			if next > 0 && r.Chance(1, 6) {
+				id = r.Intn(next) // an old set again
+			} else {
+				next++
+			}
+			o := metric.WithAttributes(attribute.Int("id", id))
+			v := int64(1 + r.Intn(9))
+			ctr.Add(ctx, v, o)
+			ctrTotal[id] += v
+			hist.Record(ctx, float64(v), o)
+			histCount[id]++
+		}
+		var rd, rc metricdata.ResourceMetrics
+		if err := del.Collect(ctx, &rd); err != nil {
+			k.Violate("collect-error", "wide delta", err.Error(), nil)
+			return
+		}
+		if err := cum.Collect(ctx, &rc); err != nil {
+			k.Violate("collect-error", "wide cumulative", err.Error(), nil)
+			return
+		}
+		idOf := func(s attribute.Set) (int, bool) {
+			v, ok := s.Value("id")
+			if !ok || s.Len() != 1 {
+				return 0, false
+			}
+			return int(v.AsInt64()), true
+		}
+		cumCtr := map[int]int64{}
+		cumHist := map[int]uint64{}
+		walk := func(rm *metricdata.ResourceMetrics, onCtr func(int, int64), onHist func(int, uint64), what string) bool {
+			for _, sm := range rm.ScopeMetrics {
+				for _, mt := range sm.Metrics {
+					switch d := mt.Data.(type) {
+					case metricdata.Sum[int64]:
+						for _, p := range d.DataPoints {
+							id, ok := idOf(p.Attributes)
+							if !ok {
+								k.Violate("wide-unexpected-attribute-set", what, fmt.Sprintf("cycle %d, %d distinct sets so far: point with attributes %v", cy, next, p.Attributes.ToSlice()), nil)
+								return false
+							}
+							onCtr(id, p.Value)
+						}
+					case metricdata.Histogram[float64]:
+						for _, p := range d.DataPoints {
+							id, ok := idOf(p.Attributes)
+							if !ok {
+								k.Violate("wide-unexpected-attribute-set", what, fmt.Sprintf("cycle %d, %d distinct sets so far: point with attributes %v", cy, next, p.Attributes.ToSlice()), nil)
+								return false
+							}
+							onHist(id, p.Count)
+						}
+					}
+				}
+			}
+			return true
+		}
+		if !walk(&rd, func(id int, v int64) { deltaCtr[id] += v }, func(id int, n uint64) { deltaHist[id] += n }, "delta") {
+			return
+		}
+		if !walk(&rc, func(id int, v int64) { cumCtr[id] = v }, func(id int, n uint64) { cumHist[id] = n }, "cumulative") {
+			return
+		}
+		for id, want := range ctrTotal {
+			if cumCtr[id] != want || deltaCtr[id] != want {
+				k.Violate("cumulative-vs-delta-total", "wide counter", fmt.Sprintf("cycle %d, %d distinct sets so far, set id=%d: recorded %d, cumulative %d, running delta total %d", cy, next, id, want, cumCtr[id], deltaCtr[id]), nil)
+				return
+			}
+		}
+		for id, want := range histCount {
+			if cumHist[id] != want || deltaHist[id] != want {
+				k.Violate("cumulative-vs-delta-total", "wide histogram count", fmt.Sprintf("cycle %d, %d distinct sets so far, set id=%d: recorded %d, cumulative %d, running delta total %d", cy, next, id, want, cumHist[id], deltaHist[id]), nil)
+				return
+			}
+		}
+		k.C.Count("wide_points_compared", int64(len(ctrTotal)+len(histCount)))
+	}
+	k.C.Max("wide_max_distinct_sets", int64(next))
+	k.C.Count("wide_histories", 1)
+	k.C.Sig(fmt.Sprintf("wide|%d|%d", cycles, next/500))
+	mp.Shutdown(ctx)
+}
+
 func main() {
 	vf.Main("C08", "exploration", func(c *vf.Ctx) {
-		c.Rule = "seeded single-threaded histories of 5-60 cycles on one MeterProvider with a delta-for-everything and a cumulative ManualReader collecting at the same points: all seven instrument kinds x int64/float64 with default aggregations, histograms under a base-2 exponential view and a counter re-aggregated to an explicit histogram; in each cycle a random subset of 2-9 attribute sets is measured (sets appear, disappear, reappear); asynchronous observations are scripted per cycle and replayed by every callback invocation; instrument-level callbacks plus multi-instrument callbacks registered/unregistered between cycles, duplicate observations, observations of instruments not registered with the callback. distinct = distinct (cycles class, sets, live callbacks, churn seen) signatures"
+		c.Rule = "seeded single-threaded histories of 5-60 cycles on one MeterProvider with a delta-for-everything and a cumulative ManualReader collecting at the same points: all seven instrument kinds x int64/float64 with default aggregations, histograms under a base-2 exponential view and a counter re-aggregated to an explicit histogram; in each cycle a random subset of 2-9 attribute sets is measured (sets appear, disappear, reappear); asynchronous observations are scripted per cycle and replayed by every callback invocation; instrument-level callbacks plus multi-instrument callbacks registered/unregistered between cycles, duplicate observations, observations of instruments not registered with the callback; plus wide histories: 1 600-7 000 distinct attribute sets on a counter and a histogram over 4-7 cycles, 400-900 per cycle, compared set by set. distinct = distinct (cycles class, sets, live callbacks, churn seen) signatures"
 		c.Assume = []string{"several observations of one (instrument, set) in one cycle add up for asynchronous sums; for gauges the last value within a callback, any callback's last value across callbacks", "a delta point's start is compared with the previous collection's time only when that collection reported the stream (otherwise only non-overlap is asserted)", "exponential buckets of the delta reader are merged by exact downscaling before comparison; values are integers (far from irrational bucket boundaries)"}
 		otel.SetErrorHandler(otel.ErrorHandlerFunc(func(error) {}))
 		otel.SetLogger(logr.Discard())
 		c.Cases("histories", c.N(2500, 40_000), 0, runHistory)
+		c.Cases("wide", c.N(48, 600), 0, runWide)
+		c.Floor("wide_histories", 20)
 		c.Floor("points_compared", 100_000)
 		c.Floor("async_points_compared", 50_000)
 		c.Floor("async_sets_vanished", 5000)
